@@ -52,7 +52,9 @@ def parseOracle (s : String) : Option (Nat × NegRes) :=
   | _ => none
 
 def parsePItem (s : String) : Option PItem :=
-  if s == "J" then some .junk else (parseUnit s).map .unit
+  -- C1 / C2: the peer answers the ClientHello with a certificate the client must refuse (for
+  -- another name / of an unknown CA): like junk, bytes that make no handshake the client accepts
+  if s == "J" || s == "C1" || s == "C2" then some .junk else (parseUnit s).map .unit
 
 def showEv : Ev → Option String
   | .wHdr t => some (if t then "H" else "h")
